@@ -11,7 +11,7 @@ pub fn build_line_map(content: &str) -> Vec<usize> {
 }
 
 pub fn find_line(line_map: &[usize], needle: usize) -> usize {
-    let found = line_map.iter().position(|v| *v > needle);
+    let found = line_map.iter().position(|v| *v >= needle);
 
     if let Some(found) = found {
         found + 1
